@@ -48,6 +48,8 @@ FIXED = [
     ("C08", "73d9578", "utilisation -15% / reduced cost: unscheduled optional task with delay_in had an inverted (negative length) busy interval"),
     ("C06", "73d9578", "unscheduled optional task with a delayed assignment contributed a negative busy time to utilisation, cost and workload"),
     ("C06", "477d477", "OrderedTaskGroup([a, o, b]) with the optional o unscheduled no longer ordered a and b (differs from the same group with o deleted)"),
+    ("C18", "3a3b797", "ScheduleNTasksInTimeIntervals(max 1) over one task and ResourceUnavailable with a repeated interval raised 'assertion ... already added'"),
+    ("C05", "3a3b797", "a problem containing ScheduleNTasksInTimeIntervals(kind=max, n=1, one task) could not be built although valid schedules exist"),
     ("C18", "939afbe", "ResourceNonDelay / TasksContiguous / IndicatorResourceIdle over a single task raised 'assertion And already added'"),
 ]
 
@@ -57,7 +59,20 @@ _BUF = ("optimizer='optimize' (z3.Optimize) returns non-optimal schedules, diffe
         "incremental optimiser is not affected. Repair would need another buffer encoding")
 _BUF_IN = ("tasks t0 (fixed 2), t1 (fixed 2, optional, priority 4), t2 (variable 1..3, priority 0), NonConcurrentBuffer(initial 3, lower 0), "
            "TaskLoadBuffer(t0, 2), TaskEndBefore(t2, 3), ObjectivePriorities: incremental -> 2 every time, optimize -> 2, 3 or 5")
+_FSR = ("the indicator created by ObjectiveMinimizeFlowtimeSingleResource is only bounded from below by the flow time of the "
+        "resource (its min/max helpers are defined through disjunctions of implications that any task outside the interval "
+        "satisfies): the value delivered with a schedule equals the definition only once the minimisation has converged; "
+        "after an early stop (max_iter, time limit) it is larger than max end - min start of that schedule. A repair needs "
+        "a new encoding of the min/max over the tasks inside the interval")
+_FSR_IN = ("worker w0 with t0 (fixed 2), t1 (variable 1..2), t2 (fixed 1, start >= 3), horizon 7, "
+           "ObjectiveMinimizeFlowtimeSingleResource(resource=w0), SchedulingSolver(max_iter=1): reported 4, schedule spans 3")
 OPEN = [
+    {"property": "C07", "key": "flowtime-single-resource-indicator-is-an-upper-bound", "where": "processscheduler/objective.py ObjectiveMinimizeFlowtimeSingleResource",
+     "match": {"clause": "C07.value_ne_definition", "direction": "wrong-value", "features": {"objective": "FlowtimeSingleResource"}},
+     "minimal_input": _FSR_IN, "description": _FSR},
+    {"property": "C08", "key": "flowtime-single-resource-indicator-is-an-upper-bound", "where": "processscheduler/objective.py ObjectiveMinimizeFlowtimeSingleResource",
+     "match": {"clause": "C08.obj.FlowtimeSingleResource", "direction": "wrong-value", "features": {"objective": "FlowtimeSingleResource"}},
+     "minimal_input": _FSR_IN, "description": _FSR},
     {"property": "C07", "key": "builtin-optimizer-suboptimal-with-buffers", "where": "processscheduler/solver.py buffer encoding + z3.Optimize",
      "match": {"clause": "C07.not_optimal_bruteforce", "direction": "suboptimal", "features": {"optimizer": "optimize", "has_buffer": True}},
      "minimal_input": _BUF_IN, "description": _BUF},
